@@ -226,19 +226,23 @@ Theorem C19_preabs_real :
 Proof. exact preabs_real. Qed.
 Print Assumptions C19_preabs_real.
 
-(* out * sum(img) / sum(out) as executed: [None] = the all-NaN frame of a 0/0.  For non-negative images and a multiplier
-   of unit DC gain the division is undefined EXACTLY on the all-zero frame; otherwise the result is the renormalised
-   blur and has the total of the image (nothing else can happen) *)
-Theorem C19_renormalisation_defined_iff_nonzero :
+(* the renormalisation as executed (weight = sum(out); if weight == 0: return out; else out * sum(img) / weight) is total
+   on non-negative inputs with a multiplier of unit DC gain: zeros on the all-zero frame, otherwise the renormalised
+   blur; in both cases the image's total is kept and no sample is negative *)
+Theorem C19_renormalisation_total_on_nonnegative :
   forall (K img : arr CS), 0 < nr img -> 0 < nc img -> get K 0 0 = RtoC 1 ->
   (forall i j, 0 <= i < nr img -> 0 <= j < nc img -> Cnn (get img i j)) ->
-  (@renorm_checked CS Cis0 Cinv (@blur CS Cabs K img) img = None
-   <-> forall i j, 0 <= i < nr img -> 0 <= j < nc img -> get img i j = RtoC 0)
-  /\ (@renorm_checked CS Cis0 Cinv (@blur CS Cabs K img) img <> None ->
-      @renorm_checked CS Cis0 Cinv (@blur CS Cabs K img) img = Some (@renorm CS Cinv (@blur CS Cabs K img) img)
-      /\ asum (@renorm CS Cinv (@blur CS Cabs K img) img) = asum img).
-Proof. exact renorm_defined_iff. Qed.
-Print Assumptions C19_renormalisation_defined_iff_nonzero.
+  ((forall i j, 0 <= i < nr img -> 0 <= j < nc img -> get img i j = RtoC 0) ->
+     @renorm_checked CS Cis0 Cinv (@blur CS Cabs K img) img = @blur CS Cabs K img
+     /\ forall i j, 0 <= i < nr img -> 0 <= j < nc img ->
+        get (@renorm_checked CS Cis0 Cinv (@blur CS Cabs K img) img) i j = RtoC 0)
+  /\ (~ (forall i j, 0 <= i < nr img -> 0 <= j < nc img -> get img i j = RtoC 0) ->
+     @renorm_checked CS Cis0 Cinv (@blur CS Cabs K img) img = @renorm CS Cinv (@blur CS Cabs K img) img)
+  /\ asum (@renorm_checked CS Cis0 Cinv (@blur CS Cabs K img) img) = asum img
+  /\ (forall i j, 0 <= i < nr img -> 0 <= j < nc img ->
+        Cnn (get (@renorm_checked CS Cis0 Cinv (@blur CS Cabs K img) img) i j)).
+Proof. exact renorm_checked_total. Qed.
+Print Assumptions C19_renormalisation_total_on_nonnegative.
 
 (* non-vacuity of the new hypotheses: C has the conjugation laws, img23 is a real non-negative non-zero image, the
    constant functions 1 are real even "sinc"/"gauss", and 2 x 3 has a Nyquist column but 3 x 5 has none *)
